@@ -26,6 +26,11 @@ pub enum Kind {
     /// and waits for them: afterwards its open files are as before, including
     /// the mode (O_NONBLOCK) of the shared open file description
     BigWriters,
+    /// `v=$(kill -s USR1 $$)$( ... )` with a command trap for USR1 in the
+    /// parent: the signal is still pending in the parent (blocked, not yet
+    /// handled) when the second substitution is forked; pending signals are
+    /// not part of what a child gets
+    CsSig,
 }
 
 #[derive(Clone, Debug, Serialize, Deserialize, PartialEq)]
@@ -146,7 +151,10 @@ fn gen_test(rng: &mut Rng, n: &mut u32, id: &mut u32, depth: u32) -> Test {
         Kind::Pipe3,
         Kind::CsTrap,
         Kind::BigWriters,
+        Kind::CsSig,
     ]);
+    // (`$$` is the main shell: only there)
+    let kind = if kind == Kind::CsSig && depth > 0 { Kind::Cs } else { kind };
     let muts = |rng: &mut Rng, n: &mut u32, max: u32| -> Vec<String> {
         (0..rng.below(max + 1)).map(|_| mutator(rng, n)).collect()
     };
@@ -162,6 +170,7 @@ fn gen_test(rng: &mut Rng, n: &mut u32, id: &mut u32, depth: u32) -> Test {
     };
     let in_function = rng.below(4) == 0;
     let mut pre = pre;
+
     if in_function {
         *n += 1;
         pre.insert(0, format!("typeset lv{}=local{}", *n, *n));
@@ -243,6 +252,10 @@ fn render_test(t: &Test, out: &mut String) {
     }
     let k = t.id;
     out.push_str(&join(&t.pre));
+    if t.kind == Kind::CsSig {
+        // (part of the test itself: without the trap the signal ends the shell)
+        out.push_str(&format!("trap ': sg{k}' USR1\n"));
+    }
     out.push_str(&format!("snap B{k}\n"));
     let mut inner = String::new();
     if let Some(n) = &t.nested {
@@ -262,6 +275,11 @@ fn render_test(t: &Test, out: &mut String) {
         )),
         Kind::Cs => out.push_str(&format!(
             "cs{k}=$( snap E{k}; {}{}echo data{k} >{ctl_file}; snap X{k}; echo out{k} )\nsnap C{k}\ncat {ctl_file}; echo \"$cs{k}\"\n",
+            join(&t.child),
+            inner
+        )),
+        Kind::CsSig => out.push_str(&format!(
+            "cs{k}=$(kill -s USR1 $$)$( snap E{k}; {}{}echo data{k} >{ctl_file}; snap X{k}; echo out{k} )\nsnap C{k}\ncat {ctl_file}; echo \"$cs{k}\"\n",
             join(&t.child),
             inner
         )),
@@ -319,7 +337,7 @@ fn expected_stdout_test(t: &Test, out: &mut String) {
     let k = t.id;
     match t.kind {
         Kind::Paren | Kind::Pipe | Kind::Pipe3 | Kind::CsTrap => out.push_str(&format!("data{k}\n")),
-        Kind::Cs => out.push_str(&format!("data{k}\nout{k}\n")),
+        Kind::Cs | Kind::CsSig => out.push_str(&format!("data{k}\nout{k}\n")),
         Kind::Async => out.push_str(&format!("mid{k}\ndata{k}\n")),
         Kind::BigWriters => out.push_str(&format!("A len={} bad=-1 B len={} bad=-1\n", t.big.0, t.big.1)),
     }
@@ -449,7 +467,7 @@ fn check_test(t: &Test, snaps: &BTreeMap<String, SnapMap>, tolerant: bool, job_c
             || key == "ttyfg" && (!job_control || lazy_tty)
             || key == "jobs" && t.stops
             || (key == "jobs" || key == "lastasync") && t.kind == Kind::Async
-            || key == cs_var && matches!(t.kind, Kind::Cs | Kind::CsTrap)
+            || key == cs_var && matches!(t.kind, Kind::Cs | Kind::CsTrap | Kind::CsSig)
     };
     let mut parents = vec![("C", c)];
     if t.kind == Kind::Async {
@@ -478,7 +496,7 @@ fn check_test(t: &Test, snaps: &BTreeMap<String, SnapMap>, tolerant: bool, job_c
     let entries: Vec<(&str, bool, bool)> = match t.kind {
         Kind::Pipe => vec![("E", false, true), ("F", true, false)],
         Kind::Pipe3 => vec![("E", false, true), ("F", true, true), ("G", true, false)],
-        Kind::Cs => vec![("E", false, true)],
+        Kind::Cs | Kind::CsSig => vec![("E", false, true)],
         Kind::CsTrap | Kind::BigWriters => vec![],
         _ => vec![("E", false, false)],
     };
@@ -564,7 +582,7 @@ fn check_test(t: &Test, snaps: &BTreeMap<String, SnapMap>, tolerant: bool, job_c
                         || key == "trap:S002"
                         || key == "trap:S003"
                 }
-                Kind::Cs | Kind::Pipe | Kind::Pipe3 | Kind::CsTrap | Kind::BigWriters => (pipe_in && key == "fd:0") || (pipe_out && key == "fd:1"),
+                Kind::Cs | Kind::CsSig | Kind::Pipe | Kind::Pipe3 | Kind::CsTrap | Kind::BigWriters => (pipe_in && key == "fd:0") || (pipe_out && key == "fd:1"),
                 Kind::Paren => false,
             }
         };
@@ -839,7 +857,7 @@ impl Prop for C08 {
         "exploration"
     }
     fn rule(&self) -> String {
-        "Seeded programs of 1-4 subshell tests (kinds: ( ), $( ), both elements of a pipeline, asynchronous list; nested up to depth 3). Around every subshell the `snap` probe serialises the complete shell state (`$?`, all variables with values and attributes, positional parameters, functions by printed body, aliases, all options, trap table, cwd, umask, NOFILE limit, descriptor table as fd -> open-file-description serial + flags, all signal dispositions, signal mask). Parent mutators before and child mutators inside are drawn from 34 state-changing commands (assignment, unset, export, readonly, function definition/removal, alias/unalias, set -o/+o, set --/shift, cd, umask, trap default/ignore/command/EXIT, exec N>file / N>&- / N<file / <file, ulimit -n). Oracles: parent snapshot before == after (for & also while the child runs and after wait), child-on-entry snapshot == parent's with exactly the documented differences (context stack: the parent's plus the subshell frames; a third of the tests run inside a loop body or an `if` condition), data written by children to shared files/pipes arrives (positive control). Schedules: FIFO baseline + seeded random/PCT/round-robin/FIFO-dev with preemption so the child runs between any two kernel calls of the parent. Distinct non-trivial = distinct (script hash, schedule hash, preemption count) with >= 2 processes. Added configurations: three-command pipelines; mutators that close descriptors (also 0), assign arrays and start asynchronous jobs; crash injection (children killed with SIGKILL from outside at seeded steps) with the leak oracle kept and every snapshot that was still taken checked. Further fault configurations, same tolerant oracle: one seeded descriptor allocation of the parent or a child fails with EMFILE; the whole script runs under `ulimit -n 10` (no descriptor >= 10 can be allocated: every save of a redirected descriptor and every attempt of a job-control shell to keep the terminal open fails, again and again), job control being switched on only afterwards. Every program also runs once in an interactive shell (`-i`): SIGINT / SIGQUIT / SIGTERM are handled by the shell itself there, and a subshell must have them as the user's traps say. Kind BigWriters: a pipeline element starts two asynchronous writers on its standard output (a pipe read slowly, more data than it holds) and waits for them; its snapshots before and after agree, the O_NONBLOCK mode of every open file description included.".into()
+        "Seeded programs of 1-4 subshell tests (kinds: ( ), $( ), both elements of a pipeline, asynchronous list; nested up to depth 3). Around every subshell the `snap` probe serialises the complete shell state (`$?`, all variables with values and attributes, positional parameters, functions by printed body, aliases, all options, trap table, cwd, umask, NOFILE limit, descriptor table as fd -> open-file-description serial + flags, all signal dispositions, signal mask). Parent mutators before and child mutators inside are drawn from 34 state-changing commands (assignment, unset, export, readonly, function definition/removal, alias/unalias, set -o/+o, set --/shift, cd, umask, trap default/ignore/command/EXIT, exec N>file / N>&- / N<file / <file, ulimit -n). Oracles: parent snapshot before == after (for & also while the child runs and after wait), child-on-entry snapshot == parent's with exactly the documented differences (context stack: the parent's plus the subshell frames; a third of the tests run inside a loop body or an `if` condition), data written by children to shared files/pipes arrives (positive control). Schedules: FIFO baseline + seeded random/PCT/round-robin/FIFO-dev with preemption so the child runs between any two kernel calls of the parent. Distinct non-trivial = distinct (script hash, schedule hash, preemption count) with >= 2 processes. Added configurations: three-command pipelines; mutators that close descriptors (also 0), assign arrays and start asynchronous jobs; crash injection (children killed with SIGKILL from outside at seeded steps) with the leak oracle kept and every snapshot that was still taken checked. Further fault configurations, same tolerant oracle: one seeded descriptor allocation of the parent or a child fails with EMFILE; the whole script runs under `ulimit -n 10` (no descriptor >= 10 can be allocated: every save of a redirected descriptor and every attempt of a job-control shell to keep the terminal open fails, again and again), job control being switched on only afterwards. Every program also runs once in an interactive shell (`-i`): SIGINT / SIGQUIT / SIGTERM are handled by the shell itself there, and a subshell must have them as the user's traps say. Kind BigWriters: a pipeline element starts two asynchronous writers on its standard output (a pipe read slowly, more data than it holds) and waits for them; its snapshots before and after agree, the O_NONBLOCK mode of every open file description included. Kind CsSig: `v=$(kill -s USR1 $$)$( ... )` with a command trap for USR1 - the second substitution is forked while the signal is pending in the parent; the child does not inherit it.".into()
     }
     fn assumptions(&self) -> Vec<String> {
         vec![
